@@ -1,4 +1,5 @@
 CONSTANTS MaxC = 3  MaxP = 3  RxCap = 1  TxCap = 2
+CONSTANT RoomRule = TRUE
 SPECIFICATION Spec
 INVARIANTS TypeOK DeliveredPrefix AckOnlyAfterReceipt CentralGotPrefix DeliveredAfterAck RxCounterInStep TxCounterInStep
 PROPERTIES NoAckWithoutStore CountersStep RetransmitUntilAck
